@@ -103,13 +103,17 @@ func genResult(r *rand.Rand, id int, bodyMax int) vegeta.Result {
 		Latency:   time.Duration(r.Int63()), BytesOut: r.Uint64(), BytesIn: r.Uint64(),
 		Error: genText(r, 20), Method: []string{"GET", "POST", "X-" + genText(r, 3)}[r.Intn(3)], URL: "http://h/" + genText(r, 15),
 	}
-	switch r.Intn(6) {
+	switch r.Intn(8) {
 	case 0:
 		res.Seq = ^uint64(0)
 	case 1:
 		res.Latency, res.BytesIn, res.BytesOut, res.Code = 0, 0, 0, 0
 	case 2:
 		res.Latency = time.Duration(1<<63 - 1)
+	case 3: // the full range of the latency type includes negative durations
+		res.Latency = -time.Duration(r.Int63n(1e12)) - 1
+	case 4:
+		res.Latency = time.Duration(-1 << 63)
 	}
 	switch r.Intn(4) {
 	case 0: // nil body
